@@ -46,20 +46,18 @@ Section Phase1.
   Definition Qint (v : json) : Prop := match v with JNum h => is_int h = true | _ => True end.
 
   Definition add_ints (tys : list tyname) (s : state) : state :=
-    fold_left (fun s t => match t with TyInteger => add_C s TNum (num_pred is_int) | _ => s end) tys s.
+    if int_only tys then add_C s TNum (num_pred is_int) else s.
 
   Lemma inv_add_ints : forall tys st VS,
-    Inv T st VS -> Inv T (add_ints tys st) (fun v => VS v /\ (has_ty TyInteger tys = true -> Qint v)).
+    Inv T st VS -> Inv T (add_ints tys st) (fun v => VS v /\ (int_only tys = true -> Qint v)).
   Proof.
-    induction tys as [|t tys IH]; intros st VS H; simpl.
+    intros tys st VS H. unfold add_ints. destruct (int_only tys).
+    - eapply inv_ext; [|apply (inv_add_C T st VS TNum (num_pred is_int) Qint H)].
+      + intros v _. tauto.
+      + intros [] Hv; tysolve.
+      + intros [] Hv; tysolve.
+      + intros [] Hv; tysolve.
     - eapply inv_ext; [|exact H]. intros v _. split; [intros; split; auto; discriminate | tauto].
-    - unfold add_ints in *. simpl.
-      destruct t; try (eapply inv_ext; [|apply IH; exact H]; intros v _; simpl; tauto).
-      eapply inv_ext; [|apply IH; apply (inv_add_C T st VS TNum (num_pred is_int) Qint H)].
-      + intros v _. simpl. tauto.
-      + intros [] Hv; tysolve.
-      + intros [] Hv; tysolve.
-      + intros [] Hv; tysolve.
   Qed.
 
   Definition tymask (tys : list tyname) : mask := fold_left (fun m t => mor m (mask_of_tyname t)) tys mnone.
@@ -108,40 +106,44 @@ Section Phase1.
       destruct k, k'; simpl in E; try discriminate; reflexivity.
   Qed.
 
+  Lemma has_ty_number_full : forall tys, has_ty TyNumber tys = true -> tymask tys KInt = true /\ tymask tys KFloat = true.
+  Proof.
+    intros tys. rewrite !tymask_spec. induction tys as [|t tys IH]; simpl; try discriminate.
+    destruct t; simpl; unfold mor, msingle; simpl; intros H;
+      try (destruct (IH H) as [X Y]; rewrite ?X, ?Y; auto); auto.
+  Qed.
+
+  Lemma mask_number_has_ty : forall tys, tymask tys KFloat = false -> has_ty TyNumber tys = false.
+  Proof.
+    intros tys H. destruct (has_ty TyNumber tys) eqn:E; auto. destruct (has_ty_number_full tys E) as [_ X]. congruence.
+  Qed.
+
+  Lemma not_int_only_relcc : forall tys, int_only tys = false ->
+    forall k k', ctype_of_kind k = ctype_of_kind k' -> tymask tys k = tymask tys k'.
+  Proof.
+    intros tys H k k' E. unfold int_only in H. destruct (has_ty TyInteger tys) eqn:Hi.
+    - simpl in H. apply negb_false_iff in H. destruct (has_ty_number_full tys H) as [X Y].
+      destruct k, k'; simpl in E; try discriminate; try reflexivity; congruence.
+    - apply no_int_relcc; auto.
+  Qed.
+
   Lemma step_type_eq : forall tys s,
     sem_eq (upd (add_ints tys s) (mand (st_A (add_ints tys s)) (tymask tys)) (st_K (add_ints tys s)) e_top)
            (step_type tys s).
-  Proof.
-    intros tys s. unfold step_type, upd, add_all. simpl.
-    assert (forall b c s0, add_ints tys (dev_if b c s0) = dev_if b c (add_ints tys s0)).
-    { intros b c. unfold add_ints. induction tys as [|t l IH]; intros s0; simpl; auto.
-      destruct t; try apply IH. rewrite <- IH. f_equal. destruct b; reflexivity. }
-    fold (add_ints tys (dev_if (has_ty TyInteger tys && has_ty TyNumber tys) DEV_integer_and_number s)).
-    rewrite H. fold (tymask tys).
-    destruct (has_ty TyInteger tys && has_ty TyNumber tys); repeat split.
-  Qed.
+  Proof. intros tys s. unfold step_type, upd, add_all, add_ints. simpl. repeat split. Qed.
 
   Lemma add_ints_A : forall tys s, st_A (add_ints tys s) = st_A s /\ st_K (add_ints tys s) = st_K s /\
                                     st_all (add_ints tys s) = st_all s.
-  Proof.
-    unfold add_ints. induction tys as [|t l IH]; intros s; simpl; auto.
-    destruct t; try apply IH. destruct (IH (add_C s TNum (num_pred is_int))) as (a & b & c). auto.
-  Qed.
+  Proof. intros tys s. unfold add_ints. destruct (int_only tys); auto. Qed.
 
-  Lemma hasc0_add_ints : forall tys s, has_ty TyInteger tys = true -> hasc0 (add_ints tys s) = true.
-  Proof.
-    unfold add_ints. induction tys as [|t l IH]; intros s H; simpl in *; try discriminate.
-    destruct t; simpl in H; auto.
-    clear IH H. generalize (add_C s TNum (num_pred is_int)) (hasc0_add_C s TNum (num_pred is_int)).
-    induction l as [|t l IH]; intros s0 H0; simpl; auto.
-    destruct t; auto. apply IH. apply hasc0_add_C.
-  Qed.
+  Lemma hasc0_add_ints : forall tys s, int_only tys = true -> hasc0 (add_ints tys s) = true.
+  Proof. intros tys s H. unfold add_ints. rewrite H. apply hasc0_add_C. Qed.
 
   Lemma inv_step_type : forall tys st VS,
-    Inv T st VS -> (has_ty TyInteger tys && has_ty TyNumber tys) = false ->
+    Inv T st VS ->
     Inv T (step_type tys st) (fun v => VS v /\ existsb (ty_matches v) tys = true).
   Proof.
-    intros tys st VS H Hdev.
+    intros tys st VS H.
     eapply inv_sem_eq; [apply step_type_eq|].
     pose proof (inv_add_ints tys st VS H) as H1.
     destruct (add_ints_A tys st) as (EA & EK & Eall).
@@ -151,7 +153,8 @@ Section Phase1.
       intros v Hv. split; [tauto|]. intros [HVS Hm]. split; [split; auto|auto].
       intros Hint. destruct v; simpl; auto.
       rewrite <- tymask_matches in Hm. simpl in Hm. destruct (is_int h) eqn:Ei; auto.
-      rewrite Hint in Hdev. simpl in Hdev. rewrite (has_ty_number_mask tys Hdev) in Hm. discriminate.
+      unfold int_only in Hint. apply andb_true_iff in Hint. destruct Hint as [_ Hn]. apply negb_true_iff in Hn.
+      rewrite (has_ty_number_mask tys Hn) in Hm. discriminate.
     - intros k Hk. unfold mand in Hk. apply andb_true_iff in Hk. tauto.
     - intros k Hk. unfold mand in Hk. apply andb_true_iff in Hk. destruct Hk as [Hk _].
       apply (i_AK _ _ _ H1). exact Hk.
@@ -167,7 +170,9 @@ Section Phase1.
       destruct k; simpl in Ek; try discriminate.
       + (* k = KInt, v float or int *) destruct (is_int h) eqn:Ei; [simpl in E; discriminate|].
         destruct (tymask tys KFloat) eqn:F; auto.
-        pose proof (Hint (has_ty_int_mask tys Hk F)) as X. simpl in X. congruence.
+        assert (Hio : int_only tys = true).
+        { unfold int_only. rewrite (has_ty_int_mask tys Hk F), (mask_number_has_ty tys F). reflexivity. }
+        pose proof (Hint Hio) as X. simpl in X. congruence.
       + destruct (is_int h) eqn:Ei; [|simpl in E; discriminate].
         (* types has Float => TyNumber in tys => Int as well *)
         rewrite tymask_spec in Hk |- *. clear - Hk. induction tys as [|t l IH]; simpl in *; try discriminate.
@@ -182,11 +187,11 @@ Section Phase1.
       apply mempty_false in Hne. destruct Hne as [k Hk]. apply mempty_false. exists k.
       unfold mand in Hk. apply andb_true_iff in Hk. tauto.
     - (* cH *)
-      intros _ Hh. assert (Hni : has_ty TyInteger tys = false).
-      { destruct (has_ty TyInteger tys) eqn:E; auto. pose proof (hasc0_add_ints tys st E) as X.
+      intros _ Hh. assert (Hni : int_only tys = false).
+      { destruct (int_only tys) eqn:E; auto. pose proof (hasc0_add_ints tys st E) as X.
         fold s1 in X. congruence. }
       destruct (i_H _ _ _ H1 Hh) as [Hback Hcc]. split.
-      + intros k k' E Hk Hk'. unfold mand. rewrite (Hcc k k' E Hk Hk'). rewrite (no_int_relcc tys Hni k k' E). reflexivity.
+      + intros k k' E Hk Hk'. unfold mand. rewrite (Hcc k k' E Hk Hk'). rewrite (not_int_only_relcc tys Hni k k' E). reflexivity.
       + intros v Hv HA. unfold mand in HA. apply andb_true_iff in HA. destruct HA as [HA Hm].
         split; [apply Hback; auto|]. rewrite <- tymask_matches. exact Hm.
   Qed.
@@ -341,12 +346,9 @@ Section Phase1.
     optP (fun n => on_arr (fun l => N.leb n (N_len l)) v = true) (a_minItems a)) /\
     optP (fun u : bool => (if u then on_arr unique_items v else true) = true) (a_unique a)).
 
-  Definition type_nodev (a : assertions) : Prop :=
-    match a_type a with Some tys => (has_ty TyInteger tys && has_ty TyNumber tys) = false | None => True end.
-
-  Lemma inv_phase1 : forall a, type_nodev a -> Inv T (phase1 re a (init T)) (VA1 a).
+  Lemma inv_phase1 : forall a, Inv T (phase1 re a (init T)) (VA1 a).
   Proof.
-    intros a Hd. unfold phase1, VA1.
+    intros a. unfold phase1, VA1.
     let rec peel n := match n with
                       | O => idtac
                       | S ?m => apply inv_opt_step; [intros x st VS H | peel m]
@@ -364,8 +366,8 @@ Section Phase1.
     - apply inv_step_multipleOf; auto.
     - apply inv_step_const; auto.
     - apply inv_step_enum; auto.
-    - unfold type_nodev in Hd. destruct (a_type a) as [tys|] eqn:E.
-      + simpl. apply inv_step_type; [apply inv_init | exact Hd].
+    - destruct (a_type a) as [tys|] eqn:E.
+      + simpl. apply inv_step_type. apply inv_init.
       + simpl. eapply inv_ext; [|apply inv_init]. intros; simpl; tauto.
   Qed.
 
